@@ -838,6 +838,14 @@ func (s *Session) evalCall(se *SpecEnv, x *SCall) Val {
 		case "allocated": // allocated(p): reference p denotes an object that exists in this state (or nil)
 			v := s.materialize(s.evalSpec(se, x.Args[0]))
 			return boolVal(And(Ge(v.L[0], I(0)), Le(v.L[0], se.st.Top)))
+		case "visited": // visited(m, k): key k has been produced by the (latest) range over map m in this function
+			m := s.materialize(s.evalSpec(se, x.Args[0]))
+			kv := s.evalSpec(se, x.Args[1])
+			f, ok := s.visitedFormula(se.fr, se.st, m.L[0], s.keyTerm(kv))
+			if !ok {
+				specFail("visited(): no range over that map is in progress here")
+			}
+			return boolVal(f)
 		case "isnil":
 			v := s.materialize(s.evalSpec(se, x.Args[0]))
 			return boolVal(Eq(v.L[0], I(0)))
